@@ -14,8 +14,8 @@ from vlib import clist, cpair, log
 
 PID = "C17"
 PROPS = "C17_Props.v"
-TARGETS = ["C17_Props.vo", "C17_Check.vo"]
-HARNESS = ["control/common_test.go", "control/c17_test.go"]
+TARGETS = ["C17_Props.vo", "C17_Check.vo", "C17_CheckLex.vo"]
+HARNESS = ["control/common_test.go", "control/c17_test.go", "control/c17lex_test.go"]
 TEST = "TestVerifC17"
 
 EXPECT_LITERALS = ["','", "'{'", "'}'", "':'", "'['", "']'", "'!'", "'('", "')'", "'->'", "'&&'"]
@@ -629,7 +629,7 @@ def usable(vt, entry_dir, path):
     return (n[1] & 0o037) == 0
 
 
-SEC_NAMES = ["global", "routing", "dns", "node", "group", "s1"]
+SEC_NAMES = ["global", "routing", "dns", "routing", "global", "s1"]
 
 
 def gen_file_body(rng, includes, tag):
@@ -646,7 +646,7 @@ def gen_file_body(rng, includes, tag):
     for _ in range(rng.choice([0, 1, 2, 3])):
         name = rng.choice(SEC_NAMES)
         items = []
-        for _ in range(rng.choice([0, 1, 2])):
+        for _ in range(rng.choice([1, 1, 2, 3])):
             k += 1
             r = rng.random()
             if r < 0.5:
@@ -691,7 +691,7 @@ def gen_merge_case(rng):
     mode_of = {}
     shape = rng.random()
     for p in all_files:
-        if shape < 0.35:
+        if shape < 0.6:
             # a tree: each file includes only files "below" it
             idx = all_files.index(p)
             later = all_files[idx + 1:]
@@ -703,12 +703,46 @@ def gen_merge_case(rng):
             includes = [rng.choice(cand_written) for _ in range(rng.choice([0, 0, 1, 1, 2, 3]))] if (p == entry or rng.random() < 0.5) else None
         tag = re.sub(r"[^a-z0-9]", "", posixpath.basename(p))[:6] or "f"
         text = gen_file_body(rng, includes, tag)
-        if rng.random() < 0.04:
+        if rng.random() < 0.02:
             text += "broken {"
-        mode = rng.choice([0o600] * 6 + [0o640, 0o400, 0o644, 0o660, 0o604, 0o620])
+        mode = rng.choice([0o600] * 36 + [0o640] * 4 + [0o400] * 2 + [0o644, 0o660, 0o604, 0o620])
         mode_of[p] = mode
         vt.add_file(p, mode, text)
     return {"vt": vt, "entry": entry, "entry_dir": entry_dir}
+
+
+def fixed_merge_cases():
+    """the boundary shapes the quantifier names, always run"""
+    E = ROOT + "/etc"
+    out = []
+
+    def mk(files, entry="entry.dae"):
+        vt = VTree()
+        for name, mode, text in files:
+            vt.add_file(name if name.startswith(ROOT) else E + "/" + name, mode, text)
+        out.append({"vt": vt, "entry": E + "/" + entry, "entry_dir": E})
+    mk([("entry.dae", 0o600, "routing { e1: v f(e) -> o }\ninclude { a.dae b.dae }\nrouting { e2: v }\n"),
+        ("a.dae", 0o600, "routing { a1: v }\ninclude { sub/c.dae }\nglobal { ga: 1 }\n"),
+        ("b.dae", 0o640, "routing { b1: v }\nglobal { gb: 1 }\n"),
+        ("sub/c.dae", 0o400, "routing { c1: v }\n")])                                     # chain + siblings: order
+    mk([("entry.dae", 0o600, "global { g: 1 }\ninclude { 'conf.d/*.dae' }\n"),
+        ("conf.d/20.dae", 0o600, "global { twenty: 1 }\n"), ("conf.d/10.dae", 0o600, "global { ten: 1 }\n"),
+        ("conf.d/README", 0o600, "not a config"), ("conf.d/05.conf", 0o600, "global { five: 1 }\n")])   # glob order, non-.dae skipped
+    mk([("entry.dae", 0o600, "include { entry.dae }\nglobal { }\n")])                         # self include
+    mk([("entry.dae", 0o600, "include { a.dae }\n"), ("a.dae", 0o600, "include { b.dae }\n"), ("b.dae", 0o600, "include { a.dae }\n")])   # cycle below the entry
+    mk([("entry.dae", 0o600, "include { a.dae b.dae }\n"), ("a.dae", 0o600, "include { c.dae }\n"), ("b.dae", 0o600, "include { c.dae }\n"),
+        ("c.dae", 0o600, "global { c: 1 }\n")])                                               # diamond
+    mk([("entry.dae", 0o600, "include { '../out.dae' }\nglobal { }\n"), (ROOT + "/out.dae", 0o600, "global { out: 1 }\n")])     # escapes the directory
+    mk([("entry.dae", 0o600, "include { '%s/out.dae' }\nglobal { }\n" % ROOT), (ROOT + "/out.dae", 0o600, "global { out: 1 }\n")])  # absolute, outside
+    mk([("entry.dae", 0o600, "include { '%s/etc/a.dae' 'sub/../b.dae' }\nglobal { e: 1 }\n" % ROOT), ("a.dae", 0o600, "global { a: 1 }\n"),
+        ("b.dae", 0o600, "global { b: 1 }\n"), ("sub/x.dae", 0o600, "")])                    # absolute inside, .. inside
+    mk([("entry.dae", 0o600, "include { notes.conf missing.dae }\nglobal { e: 1 }\n"), ("notes.conf", 0o600, "global { n: 1 }\n")])   # non-.dae / missing: skipped
+    mk([("entry.dae", 0o600, "include { a.dae }\n"), ("a.dae", 0o644, "global { a: 1 }\n")])   # permissions too open
+    mk([("entry.dae", 0o600, "include { a.dae }\n"), ("a.dae", 0o600, "global { a: 1 ")])       # included file does not parse
+    mk([("entry.dae", 0o600, "include { f(x) -> y }\n")])                                      # include item is not a value
+    mk([("entry.conf", 0o600, "global { }\n")], entry="entry.conf")                           # the entry itself is not .dae
+    mk([("entry.dae", 0o600, "global { a: 1 }\nglobal { b: 2 }\nrouting { }\nglobal { c: 3 }\n")])   # equally named sections of one file
+    return out
 
 
 def merge_request(mc):
@@ -898,7 +932,7 @@ def check_build_cases(sc, binary, out, stats):
 # ------------------------------------------------------------------------------------------------
 # running
 # ------------------------------------------------------------------------------------------------
-def run_requests(sc, binary, reqs, tag, timeout=600):
+def run_requests(sc, binary, reqs, tag, timeout=600, test=None):
     inp = sc.path("c17_%s.in" % tag)
     outp = sc.path("c17_%s.out" % tag)
     with open(inp, "w") as f:
@@ -906,7 +940,7 @@ def run_requests(sc, binary, reqs, tag, timeout=600):
             f.write(json.dumps(r) + "\n")
     if os.path.exists(outp):
         os.remove(outp)
-    rc, so, se, dt = vlib.run_go_harness(binary, TEST, inp, outp, timeout=timeout)
+    rc, so, se, dt = vlib.run_go_harness(binary, test or TEST, inp, outp, timeout=timeout)
     if rc != 0:
         return None, "harness process failed rc=%d: %s" % (rc, (so + se)[-1500:])
     res = [json.loads(l) for l in open(outp)]
@@ -927,7 +961,7 @@ def run_isolated(sc, binary, reqs, tag):
     return run_isolated(sc, binary, reqs[:mid], tag + "a") + run_isolated(sc, binary, reqs[mid:], tag + "b")
 
 
-HEADER = ("From Coq Require Import List NArith Bool String Ascii.\nFrom Dae Require Import C17_Spec C17_Model C17_Check.\n"
+HEADER = ("From Coq Require Import List NArith Bool String Ascii.\nFrom Dae Require Import C17_Spec C17_Model C17_Check C17_CheckLex.\n"
           "Import ListNotations.\nOpen Scope string_scope.\nOpen Scope N_scope.\nOpen Scope list_scope.\n")
 
 
@@ -986,6 +1020,25 @@ def run_parse_batch(sc, binary, cases, tag):
     return errors, sigs, res, None
 
 
+def run_lex_batch(sc, binary, cases, tag):
+    """token-by-token: generated ANTLR lexer against the model lexer. Returns (indices that disagree, error)"""
+    idx = [i for i, c in enumerate(cases) if c["kind"] != "bytes"]
+    res, err = run_requests(sc, binary, [{"op": "lex", "text": b64(cases[i]["text"])} for i in idx], tag, test="TestVerifC17Lex")
+    if err:
+        return None, err
+    terms = []
+    for i, r in zip(idx, res):
+        if r.get("panic"):
+            terms.append("(Build_lex_case %s true [])" % bstr(cases[i]["text"]))
+            continue
+        toks = clist([cpair(str(t["t"]), bstr(t["s"])) for t in (r.get("toks") or [])])
+        terms.append("(Build_lex_case %s %s %s)" % (bstr(cases[i]["text"]), vlib.cbool(r.get("errors", 0) > 0), toks))
+    per, _, err = eval_cases("C17_cases_%s" % tag, "lex_case", terms, "check_lex", None)
+    if err:
+        return None, err
+    return [i for i, e in zip(idx, per) if e], None
+
+
 def shrink_text(sc, binary, text, fails_many):
     """ddmin over whitespace-separated words (chunks of decreasing size, then single words);
     fails_many(list of texts) -> list of bool (still failing); one harness call per round"""
@@ -1024,6 +1077,46 @@ def crash_class(msg):
     return "other"
 
 
+def do_replay(path):
+    """re-run one recorded case against the implementation, the model and the spec; print the three results"""
+    d = json.load(open(path))
+    rp = d.get("replay", d)
+    with vlib.Scratch() as sc:
+        binary, blog = vlib.build_go_test_binary(sc, "control", HARNESS)
+        if binary is None:
+            print("harness build failed")
+            return 2
+        op = rp.get("op") or ("merge" if "request" in rp else None)
+        if op == "parse":
+            raw = base64.b64decode(rp["text_b64"]) if rp.get("text_b64") else rp["text"].encode()
+            try:
+                case = {"kind": "near", "text": raw.decode("utf-8")}
+            except UnicodeDecodeError:
+                case = {"kind": "bytes", "bytes": raw}
+            errs, _, res, err = run_parse_batch(sc, binary, [case], "replay")
+            print("impl :", json.dumps(res[0])[:600] if res else err)
+            print("codes (1 impl<>model, 2/9 impl<>spec, 3 model<>spec):", errs.get(0) if errs else err)
+            return 1 if (errs and errs.get(0)) else 0
+        if op == "compile":
+            req = {"op": "compile", "stage": rp.get("stage", "routing"), "text": rp["text_b64"] if rp.get("text_b64") else b64(rp["text"])}
+            res = run_isolated(sc, binary, [req], "replay")
+            print("impl :", json.dumps(res[0])[:800])
+            print("spec : an error message or a configuration, never a crash")
+            return 1 if res[0].get("panic") else 0
+        if op == "merge":
+            req = rp["request"]
+            res, err = run_requests(sc, binary, [req], "replay")
+            print("impl :", json.dumps(res[0])[:800] if res else err)
+            print("(model/spec comparison of merge replays: rerun the check with the recorded seed)")
+            return 0
+        if op == "build":
+            res, err = run_requests(sc, binary, [{"op": "build", "text": b64(rp["text"])}], "replay")
+            print("impl :", json.dumps(res[0])[:800] if res else err)
+            return 1 if res and res[0].get("panic") else 0
+    print("nothing to replay in", path)
+    return 2
+
+
 def main(argv):
     import time
     t0 = time.time()
@@ -1032,6 +1125,8 @@ def main(argv):
     def log(*a):
         _log("[%5.1fs]" % (time.time() - t0), *a)
     args = vlib.main_args(argv)
+    if args.replay:
+        return do_replay(args.replay)
     out = vlib.Outcome(PID, args.tier, args.seed)
     rng = vlib.rng_for(args.seed, PID)
     thorough = args.tier == "thorough"
@@ -1049,8 +1144,10 @@ def main(argv):
         tie_broken = "anchor moved: %s" % e
     limit = facts.get("max_match_set_len", 1024)
 
+    log("translators done")
     # 2. proofs
     proof_ok, pinfo = vlib.proof_stage(out, PROPS, TARGETS)
+    log("proof stage done")
     cov = {"obligations": pinfo["obligations"], "discharged": pinfo["discharged"],
            "checker_cmd": "cd /verif/coq && coq_makefile -f _CoqProject -o Makefile && make -j16 " + " ".join(TARGETS) + " && coqc -Q . Dae C17_Props.v (Print Assumptions captured)",
            "theorems": pinfo.get("theorems", []), "print_assumptions": pinfo.get("assumptions", []),
@@ -1077,17 +1174,19 @@ def main(argv):
             return out.finish()
 
         # ---- parse stream
-        ng, nn, ne, nr, nb = (80, 100, 30, 80, 40) if not thorough else (1500, 2500, 300, 2500, 1000)
+        ng, nn, ne, nr, nb = (60, 80, 25, 60, 30) if not thorough else (1500, 2500, 300, 2500, 1000)
         corpus = []
         cdir = os.path.join(vlib.VERIF, "corpus", PID)
         if os.path.isdir(cdir):
             for n in sorted(os.listdir(cdir)):
                 if n.endswith(".json"):
                     corpus.append(json.load(open(os.path.join(cdir, n))))
+        log("harness built")
         pcases = [c for c in corpus if c.get("kind") in ("near", "edge", "raw")] + gen_parse_cases(rng, ng, nn, ne, nr, nb, thorough)
         all_err = {}
         sigs = []
         presults = {}
+        lex_fail = []
         shard = 600
         for s in range(0, len(pcases), shard):
             errs, sg, rs, err = run_parse_batch(sc, binary, pcases[s:s + shard], "p%d" % s)
@@ -1096,6 +1195,11 @@ def main(argv):
                 break
             for j, r in enumerate(rs):
                 presults[s + j] = r
+            lbad, err = run_lex_batch(sc, binary, pcases[s:s + shard], "l%d" % s)
+            if err:
+                tie_broken = tie_broken or err
+                break
+            lex_fail += [s + i for i in lbad]
             for i, e in errs.items():
                 if e:
                     all_err[s + i] = e
@@ -1152,12 +1256,14 @@ def main(argv):
             out.violation("parse_wrong", {"op": "parse", "text": c.get("text"), "stream": c["kind"], "codes": all_err[i],
                                           "how": "Parse(text) differs from the configuration the text spells (or rejects a well-formed text)"},
                           "parsed configuration differs from what is written (%d texts)" % len(by["spec"]), matchers=["C17/parse-wrong"])
-        parse_model_fail = by.get("model", []) + by.get("theorem", []) + by.get("generator", [])
+        parse_model_fail = by.get("model", []) + by.get("theorem", []) + by.get("generator", []) + lex_fail
+        stats["lexer_token_streams_compared"] = sum(1 for c in pcases if c["kind"] != "bytes")
+        stats["lexer_disagreements"] = len(lex_fail)
 
         log("parse stream classified and shrunk")
         # ---- merge stream
-        nm = 80 if not thorough else 2000
-        mcases = [gen_merge_case(rng) for _ in range(nm)]
+        nm = 60 if not thorough else 2000
+        mcases = fixed_merge_cases() + [gen_merge_case(rng) for _ in range(nm)]
         merge_fail_spec, merge_fail_model = [], []
         msigs = []
         mres, err = run_requests(sc, binary, [merge_request(m) for m in mcases], "merge")
@@ -1270,7 +1376,7 @@ def main(argv):
                 what["correspondence"] = tie_broken
             if parse_model_fail:
                 i = parse_model_fail[0]
-                what["parse_case"] = {"text": pcases[i].get("text"), "stream": pcases[i]["kind"], "codes": all_err[i]}
+                what["parse_case"] = {"text": pcases[i].get("text"), "stream": pcases[i]["kind"], "codes": all_err.get(i, ["lexer token stream differs"])}
             if merge_fail_model:
                 what["merge_case"] = {"request": merge_request(mcases[merge_fail_model[0]])}
             if cap_model_fail:
@@ -1290,7 +1396,7 @@ def main(argv):
                         "merge: random directory trees (globs, nesting, cycles, diamonds, absolute/relative/.. paths, non-.dae, directories, permissions, broken files); signature = (class, #files read, #sections); "
                         "non-trivial = accepted parse with a non-empty production mask, accepted merge reading more than one file",
                    traces_validated_against_impl=n_eval - model_fail_total,
-                   comparisons="parse: impl tree = model tree, impl = denote(ast), model = denote(ast), model(show ast) = denote(ast), python printer = Spec.show; "
+                   comparisons="lexer: ANTLR token stream (types, texts, error or not) = model token stream; parse: impl tree = model tree, impl = denote(ast), model = denote(ast), model(show ast) = denote(ast), python printer = Spec.show; "
                                "merge: impl = model (sections, files read), impl = spec tree merge, model = spec; capacity/compile: answer class, crash = violation; build: answer class + documented defaults",
                    exploration_only=["absence of crashes on malformed input (near/edge/raw/bytes streams)", "config.New contract classes", "risky routing programs in child processes"],
                    statistics=stats,
